@@ -6,6 +6,7 @@ import (
 	"time"
 
 	"reduction.dev/reduction/clocks"
+	"reduction.dev/reduction/util/verifhook"
 )
 
 type BatchToken int64
@@ -79,6 +80,7 @@ func (b *EventBatcher[T]) IsFull() bool {
 }
 
 func (b *EventBatcher[T]) Flush(token BatchToken) []T {
+	verifhook.At("batcher.flush", int64(token))
 	b.mu.Lock()
 	defer b.mu.Unlock()
 
